@@ -47,7 +47,7 @@ def gen_case(rng, big):
     return {
         "shape": shape, "dtype": rng.choice(["f8", "i8", "i4", "f4"]), "seed": rng.randrange(10**6), "vals": rng.choice(["perm", "ties"]),
         "chunks": [list(c) for c in rand_chunks(rng, shape)], "producer": rng.choice(PRODUCERS), "thr": rng.randint(-4, 6),
-        "axis": rng.randrange(nd), "mask_chunks": [list(c) for c in rand_chunks(rng, shape)], "fseed": rng.randrange(10**9), "nfollow": rng.randint(1, 2),
+        "base": rng.choice(["leaf", "leaf", "leaf", "sliding", "sliding_max"]), "axis": rng.randrange(nd), "mask_chunks": [list(c) for c in rand_chunks(rng, shape)], "fseed": rng.randrange(10**9), "nfollow": rng.randint(1, 2),
     }
 
 
@@ -55,6 +55,13 @@ def produce(p, da):
     a = leaf_values(tuple(p["shape"]), p["dtype"], p["vals"], p["seed"])
     x = da.from_array(a, chunks=tuple(tuple(c) for c in p["chunks"]))
     k, thr, ax = p["producer"], p["thr"], p["axis"]
+    if p.get("base", "leaf") != "leaf" and a.shape[ax] >= 2:
+        # the producer's input is itself a node whose optimized block grid may differ from the advertised one
+        w = min(3, a.shape[ax])
+        fn = "sum" if p["base"] == "sliding" else "max"
+        x = getattr(da.sliding_window_view(x, w, axis=ax), fn)(axis=-1)
+        a = getattr(np.lib.stride_tricks.sliding_window_view(a, w, axis=ax), fn)(axis=-1)
+        p = dict(p, mask_chunks=[list(c) for c in x.chunks], shape=list(a.shape))
     m = a > thr
     if k == "np_mask_1d":
         if a.ndim != 1:
